@@ -406,6 +406,20 @@ func (s *solutionImpl) addInitialSolution(m Model) error {
 				continue
 			}
 
+			// The same holds if the initial stops of the vehicle list only some
+			// of the members that have to be on one vehicle.
+			if !initialStopsCover(solutionPlanUnit, planUnits) {
+				if solutionPlanUnit.IsFixed() {
+					return fmt.Errorf(
+						"infeasible initial solution: vehicle %v lists only some of the stops of plan unit %v",
+						modelVehicle.ID(),
+						solutionPlanUnit.ModelPlanUnit(),
+					)
+				}
+				infeasiblePlanUnits[solutionPlanUnit] = true
+				continue
+			}
+
 		ModelStopLoop:
 			for modelStopIdx, modelStop := range initialModelStops {
 				if len(stopPositions) == len(planUnit.SolutionStops()) {
@@ -584,6 +598,30 @@ func (s *solutionImpl) addInitialSolution(m Model) error {
 	}
 
 	return nil
+}
+
+// initialStopsCover returns false if the plan unit has members that have to be
+// planned together on one vehicle and listed does not contain all of them.
+func initialStopsCover(planUnit SolutionPlanUnit, listed SolutionPlanStopsUnits) bool {
+	unitsUnit, ok := planUnit.(SolutionPlanUnitsUnit)
+	if !ok {
+		for _, l := range listed {
+			if l.ModelPlanUnit().Index() == planUnit.ModelPlanUnit().Index() {
+				return true
+			}
+		}
+		return false
+	}
+	modelPlanUnitsUnit := unitsUnit.ModelPlanUnitsUnit()
+	if !modelPlanUnitsUnit.PlanAll() || !modelPlanUnitsUnit.SameVehicle() {
+		return true
+	}
+	for _, member := range unitsUnit.SolutionPlanUnits() {
+		if !initialStopsCover(member, listed) {
+			return false
+		}
+	}
+	return true
 }
 
 // detachInitialMembers takes the members of a rejected plan unit that were
